@@ -329,26 +329,29 @@ def unseeded_variety(ao):
 
 
 def initial_screen_and_rows_use_different_deviates(ao):
-    """a seeded screen: the innovation of the FIRST added row is not made of deviates the initial screen was built from (the seed
-    stream is one stream; spec/RngIso.tla: NoDeviateUsedTwice).  b = B^-1 (row - A stencil), compared with the head of the seed stream."""
+    """a seeded screen: the innovation of the FIRST added row is not made of deviates the construction already consumed
+    (spec/RngIso.tla: NoDeviateUsedTwice).  b = B^-1 (row - A stencil).  Which deviates the construction consumed is OBSERVED
+    (every generator made by numpy.random.default_rng during the construction records what it hands out, child streams included),
+    not assumed: an initial screen drawn from a spawned child stream, or in another order, is none of this check's business."""
     from aotools.turbulence import infinitephasescreen as ips
+    from harness import gens
     bad = []
     for seed in (0, 3, 11):
-        obj = ips.PhaseScreenVonKarman(6, 0.5, 0.2, 20.0, random_seed=seed)
-        if not hasattr(obj, "A_mat") or not hasattr(obj, "B_mat"):
-            continue
-        w = np.array(obj._scrn, copy=True)
-        sc_ = np.asarray(obj.stencil_coords)
-        st = w[(sc_[:, 0], sc_[:, 1])]
-        obj.add_row()
+        with gens.recorded_default_rng() as log:
+            obj = ips.PhaseScreenVonKarman(6, 0.5, 0.2, 20.0, random_seed=seed)
+            consumed = np.concatenate(log) if log else np.zeros(0)
+            if not hasattr(obj, "A_mat") or not hasattr(obj, "B_mat") or consumed.size == 0:
+                continue
+            w = np.array(obj._scrn, copy=True)
+            sc_ = np.asarray(obj.stencil_coords)
+            st = w[(sc_[:, 0], sc_[:, 1])]
+            obj.add_row()
         e = np.asarray(obj._scrn)[0] - np.asarray(obj.A_mat).dot(st)
         try:
             b = np.linalg.solve(np.asarray(obj.B_mat, float), e)
         except np.linalg.LinAlgError:
             continue
-        head = np.random.default_rng(seed).normal(size=2 * w.shape[0] * w.shape[0] + 200)
-        used_by_initial_screen = head[:2 * w.shape[0] * w.shape[0]]
-        hits = [int(np.argmin(np.abs(used_by_initial_screen - v))) for v in b if np.abs(used_by_initial_screen - v).min() < 1e-7 * max(1.0, abs(v))]
+        hits = [int(np.argmin(np.abs(consumed - v))) for v in b if np.abs(consumed - v).min() < 1e-7 * max(1.0, abs(v))]
         if len(hits) == len(b):
             bad.append(("rng:row-innovation-reuses-deviates-of-the-initial-screen", dict(seed=seed, positions=hits[:6])))
             break
